@@ -293,6 +293,25 @@ CLAIMED["C09"] = (
     "store-history correspondence + read-back / independence / re-open oracles",
     "DESIGN.md §5 C09",
 )
+CLAIMED["C12"] = (
+    "Kernel-checked theorems on the effects model: an accessor whose only effect is to insert erasable subtrees (roots from a "
+    "fixed set of formatting containers, every node attribute-less and from the container sets) is invisible to the "
+    "canonical form at any node and any depth - also inside containers added by earlier reads - hence after ANY history "
+    "of such reads on any parts, in any order, with any repetition and any number of saves in between, every part has the "
+    "canonical form it had, and the package the same number of parts.  Tied to the code by observation on every run: every "
+    "public property of every object reachable by reflection (~310 accessors; generated deck with every kind of object + "
+    "corpus decks) is called with the owning part and the part list compared before / after; each changing access is "
+    "classified by a Python canonicaliser and by the Lean model on the same two trees; the table of changing accessors is "
+    "regenerated and the obligation 'every one of them is a documented creator or a listed finding' closed by kernel "
+    "evaluation; end to end, decks traversed completely (seeded order, repetitions, intermediate saves) and saved are "
+    "compared part by part (matched by relationship path) with the same decks saved straight after opening.",
+    "The per-accessor effect table is observed, i.e. sampled over documents (stated in the evidence); container sets and the "
+    "list of documented creators are fixed by hand from the property text and the docstrings.  Six undocumented creating "
+    "getters are listed as findings.",
+    "Lean 4 proof (invisibility of empty-container insertions lifted to paths and histories by induction) + observed effect "
+    "table with decide obligation + canonical-form correspondence + end-to-end comparison of saved packages",
+    "DESIGN.md §5 C12",
+)
 
 NOT_YET = {}
 
